@@ -604,6 +604,51 @@ theorem enc_replace_back (c : Codec) (g : c.Good) (eol : Str) (ha : IsAscii eol)
           · have := g.high ch y1 (by omega) h1 x hx
             omega
 
+/-! ### vocabulary of the statements -/
+
+/-- the previous content of the file plays no role: a truncating mode, or `at` on a missing file -/
+def Fresh (fs : FS) (p m : Str) : Prop := m = ['a', 't'] → fs p = none
+
+theorem startContent_fresh {fs : FS} {p m : Str} (h : Fresh fs p m) : startContent fs p m = [] := by
+  unfold startContent
+  split
+  · rename_i hm; rw [h hm]; rfl
+  · rfl
+
+/-- the standard EOLs never interfere with a text without `'\r'` -/
+theorem eolDisjoint_std (eol text : Str) (he : isStdEol eol = true) (h : NoCR text) : EolDisjoint eol text := by
+  have he' : (eol = crlf ∨ eol = lf) ∨ eol = cr := by
+    simpa [isStdEol, Bool.or_eq_true] using he
+  rcases he' with (rfl | rfl) | rfl
+  · refine ⟨by simp [crlf], ?_⟩
+    intro ch hch hn
+    simp only [crlf, List.mem_cons, List.not_mem_nil, or_false] at hch
+    rcases hch with rfl | rfl
+    · exact h
+    · exact absurd rfl hn
+  · refine ⟨by simp [lf], ?_⟩
+    intro ch hch hn
+    simp only [lf, List.mem_cons, List.not_mem_nil, or_false] at hch
+    exact absurd hch hn
+  · refine ⟨by simp [cr], ?_⟩
+    intro ch hch hn
+    simp only [cr, List.mem_cons, List.not_mem_nil, or_false] at hch
+    subst hch; exact h
+
+theorem std_ascii (eol : Str) (he : isStdEol eol = true) : IsAscii eol := by
+  have he' : (eol = crlf ∨ eol = lf) ∨ eol = cr := by
+    simpa [isStdEol, Bool.or_eq_true] using he
+  rcases he' with (rfl | rfl) | rfl <;> intro ch hch <;>
+    simp only [crlf, lf, cr, List.mem_cons, List.not_mem_nil, or_false] at hch
+  · rcases hch with rfl | rfl <;> decide
+  · subst hch; decide
+  · subst hch; decide
+
+theorem decode_nil (c : Codec) (g : c.Good) : c.decode [] = some [] := by
+  unfold Codec.decode
+  have : c.dec [] = some [] := g.dec_enc [] [] g.enc_nil
+  cases hb : c.bom <;> simp [startsWith, this]
+
 /-! ### codecs for which the assumptions are discharged -/
 
 theorem latin1_good : latin1.Good where
